@@ -41,6 +41,10 @@ CHECKS["C08"] = dict(technique="property-based testing over generated pair lists
                      note="Trusted: reference pairing / GT powers; single pairing decided by C01.",
                      ref="DESIGN.md section 4, C08")
 
+CHECKS["C09"] = dict(technique="property-based testing with structured mutations of valid encodings against a reference decoder (canonical bytes, curve equation, subgroup by reference [r]P), plus round-trip and cross-form oracles",
+                     note="Trusted: reference curve arithmetic; the greater-flag convention is taken from the library's own encoder.",
+                     ref="DESIGN.md section 4, C09")
+
 PENDING = {}
 
 
